@@ -88,6 +88,10 @@ struct Node {
     // stack position at the listener's idle points (recv/poll/timer read): steady growth is a leak that ends in a crash
     uint64_t sp_first = 0, sp_low = 0;
     unsigned sp_deeper = 0;
+    // resources held at the idle points: descriptors open, heap blocks obtained by the program's own malloc/calloc/realloc calls
+    int fds_first = -1;
+    int64_t heap_live = 0, heap_live_bytes = 0, heap_first = -1;
+    uint64_t heap_allocs = 0;
 };
 
 struct Event {
@@ -117,6 +121,7 @@ struct Hooks {
     std::function<void(World &, int node, int code, bool via_exit)> on_task_exit;
     std::function<void(World &, int node)> on_handler_done;
     std::function<void(World &, int node, uint64_t bytes, unsigned times)> on_stack_growth;
+    std::function<void(World &, int node, int now_open, int first_open)> on_fd_growth;
 };
 
 class World {
